@@ -795,7 +795,8 @@ class Container:
             if Unit.exceeds(requested, round(available, config.internal_precision)):
                 raise ValueError(f"Not enough mixture left in source container ({source_container.name}). " +
                                  f"Only {available} available, {requested} needed.")
-            return requested / available if available else 0.0
+            # a request that exceeds what is there only by float noise takes everything, not a hair more
+            return min(requested / available, 1.0) if available else 0.0
 
         if unit == 'L':
             volume_to_transfer = Unit.convert_to_storage(quantity_to_transfer, 'L')
